@@ -2,5 +2,6 @@ INIT Init
 NEXT Next
 INVARIANT ThmValueOnly
 INVARIANT ThmNormalizeIdem
+INVARIANT ThmSigning
 INVARIANT Emit
 CHECK_DEADLOCK FALSE
